@@ -3,10 +3,105 @@ package ring
 import (
 	"context"
 	"fmt"
+	"time"
 
 	"go.miragespace.co/specter/spec/chord"
 	"verifharness/internal/ringsim"
 )
+
+// twoJoinersOneStallsAtPredecessorProbe: two nodes join into the same gap
+// (P, S). The request of the lower one, j2, is the first to reach S and stalls
+// at S's liveness probe of its predecessor (the Ping is held on the wire);
+// meanwhile the higher one, j1, asks S to join as well. Whichever way S orders
+// the two requests, after the quiet period every key in every node's own store
+// must hash into that node's range.
+func twoJoinersOneStallsAtPredecessorProbe() (problem string) {
+	const (
+		P  = uint64(1) << 44
+		J2 = uint64(3) << 44
+		J1 = uint64(6) << 44
+		S  = uint64(9) << 44
+	)
+	// nobody probes a predecessor on its own while the probe of the join request is held
+	r := newSimRing(ringsim.Config{Seed: 58, PredCheckInterval: 3 * time.Second})
+	defer r.net.Close()
+	if err := r.buildRing([]uint64{P, S}, func(i int) int { return 0 }); err != nil {
+		return "precondition: " + err.Error()
+	}
+	if _, c := r.settle(60, true, nil); c.Problem != "" {
+		return "precondition: " + c.Problem
+	}
+	ctx := context.Background()
+	for i := 0; i < 80; i++ {
+		k := []byte(fmt.Sprintf("gap-%d", i))
+		if err := retryKV(func() error { return r.members[P].Node.Put(ctx, k, []byte("v")) }); err != nil {
+			return "precondition: put: " + err.Error()
+		}
+	}
+	gate := r.net.AddGate(&ringsim.Gate{Method: "Ping", Caller: S, Callee: P, Nth: 1})
+	type jr struct {
+		id  uint64
+		err error
+	}
+	results := make(chan jr, 2)
+	go func() { _, err := r.join(J2, S); results <- jr{J2, err} }()
+	select {
+	case <-gate.Reached():
+	case res := <-results:
+		gate.Release()
+		return fmt.Sprintf("precondition: first join ended without probing the predecessor: %v", res.err)
+	case <-time.After(10 * time.Second):
+		gate.Release()
+		return "precondition: predecessor probe not reached"
+	}
+	go func() { _, err := r.join(J1, S); results <- jr{J1, err} }()
+	// give the second joiner time to run its whole join if S lets it
+	var first *jr
+	select {
+	case res := <-results:
+		first = &res
+	case <-time.After(150 * time.Millisecond):
+	}
+	gate.Release()
+	got := map[uint64]error{}
+	if first != nil {
+		got[first.id] = first.err
+	}
+	for len(got) < 2 {
+		select {
+		case res := <-results:
+			got[res.id] = res.err
+		case <-time.After(60 * time.Second):
+			return "precondition: joins did not return"
+		}
+	}
+	// a joiner that ran out of attempts while the other one held the lock simply tries again
+	for id, err := range got {
+		if err != nil {
+			if _, err2 := r.join(id, P); err2 != nil {
+				return fmt.Sprintf("precondition: join of %d failed twice: %v / %v", id, err, err2)
+			}
+		}
+	}
+	if _, c := r.settle(80, false, nil, false); c.Problem != "" {
+		return "precondition: not converged after the joins: " + c.Problem
+	}
+	live := r.live()
+	ids := liveIDs(live)
+	for i, m := range live {
+		keys, err := m.KV.Inner().RangeKeys(ctx, 0, 0)
+		if err != nil {
+			return "precondition: RangeKeys: " + err.Error()
+		}
+		pre := ids[(i-1+len(ids))%len(ids)]
+		for _, k := range keys {
+			if h := chord.Hash(k); !chord.Between(pre, h, m.ID, true) {
+				return fmt.Sprintf("node %d holds key %q (hash %d) outside its range (%d, %d]; ring %v; join results %v", m.ID, k, h, pre, m.ID, ids, got)
+			}
+		}
+	}
+	return ""
+}
 
 // restartWithOldStore: node L (backend given) holds data, leaves gracefully,
 // the ring changes while it is away (J joins into L's former range, more data
